@@ -72,7 +72,7 @@ func cmdCheck(args []string) int {
 	start := time.Now()
 	id := *prop
 	p := setup(*repo, *tier)
-	timeout := 10 * time.Second
+	timeout := 15 * time.Second
 	if *tier == "thorough" {
 		timeout = 60 * time.Second
 	}
@@ -132,7 +132,7 @@ func cmdCheck(args []string) int {
 	// lemmas and global checks owned by the property
 	all = append(all, p.globalObligations(id)...)
 
-	p.dischargeAll(all, timeout, dir, 14)
+	p.dischargeAll(all, timeout, dir, 8)
 
 	// vacuity: each function's assumptions must be satisfiable
 	vac := p.vacuityChecks(all, dir)
@@ -227,6 +227,13 @@ func cmdCheck(args []string) int {
 	sort.Strings(lines)
 	for _, l := range lines {
 		fmt.Println(l)
+	}
+	if os.Getenv("GOVC_SLOW") != "" {
+		sorted := append([]*Obligation{}, all...)
+		sort.Slice(sorted, func(i, j int) bool { return sorted[i].Secs > sorted[j].Secs })
+		for i := 0; i < 12 && i < len(sorted); i++ {
+			fmt.Printf("SLOW %.2fs %s %s\n", sorted[i].Secs, sorted[i].Solver, sorted[i].Name)
+		}
 	}
 	// evidence
 	var as []string
